@@ -54,21 +54,7 @@ def impl_vs_ref(text: str, det: bool, tol: float):
 
 
 def elab_expected(text: str) -> bool:
-    """texts the elaboration of Proofs/ParseElab.v is meant to cover: everything the parse model reads except MPP with a flip probability and an explicit non-positive flip probability of a measurement"""
-    import re
-    for line in text.split("\n"):
-        m = re.match(r"^\s*([A-Z_0-9a-z]+)(\[[^\]]*\])?(\(([^)]*)\))?", line)
-        if not m:
-            continue
-        name, args = m.group(1), m.group(4)
-        if name == "MPP" and args is not None:
-            return False
-        if name in ("M", "MX", "MY", "MZ", "MR", "MRX", "MRY", "MRZ") and args is not None:
-            try:
-                if float(args) <= 0:
-                    return False
-            except ValueError:
-                return False
+    """texts the elaboration of Proofs/ParseElab.v is meant to cover: everything the parse model reads"""
     return True
 
 
